@@ -640,7 +640,8 @@ where
             Self::Done { buffer, .. } => {
                 buffer.advance(amt);
             }
-            Self::Error => unreachable!("error state "),
+            // `consume` after an error must not panic (read / fill_buf keep returning `Err`)
+            Self::Error => {}
         }
     }
 }
